@@ -42,8 +42,15 @@ def _rust_str(body):
     return "".join(out)
 
 
-def _lean_str(s):
-    return '"' + "".join({'\\': '\\\\', '"': '\\"', '\n': '\\n', '\r': '\\r', '\t': '\\t'}.get(c, c) for c in s) + '"'
+def _lean_chars(s):
+    """a `List Char` literal (kernel-reducible, unlike `String.toList`)"""
+    def one(c):
+        if c == "'" or c == "\\":
+            return "'\\" + c + "'"
+        if ' ' <= c <= '~':
+            return "'" + c + "'"
+        return "Char.ofNat %d" % ord(c)
+    return "[" + ", ".join(one(c) for c in s) + "]"
 
 
 SKELETON = [
@@ -105,8 +112,8 @@ def extract_cnq(repo):
         raise ExtractError("xsd namespace import changed in %s" % REL)
     out = [HEADER, "namespace SophiaModel.Gen\n",
            "/-- fixed arms of the escape `match` in c14n/src/_cnq.rs, in source order: (code point, replacement) -/\n",
-           "def cnqEscapes : List (Nat × String) := [\n",
-           ",\n".join("  (%d, %s)" % (cp, _lean_str(s)) for cp, s in fixed), "]\n",
+           "def cnqEscapes : List (Nat × List Char) := [\n",
+           ",\n".join("  (%d, %s)" % (cp, _lean_chars(s)) for cp, s in fixed), "]\n",
            "/-- `c if c <= '\\x%02x'` ⇒ `\\uXXXX` (4 uppercase hex digits of `c as u8`) -/\n" % ctl_max,
            "def cnqCtlMax : Nat := %d\n" % ctl_max,
            "end SophiaModel.Gen\n"]
